@@ -440,6 +440,7 @@ func (c *Component) restoreFromHASync(srgName string) {
 			EncapIfIndex:       encapIfIndex,
 			IPoESwIfIndex:      swIfIndex,
 			IPoESessionCreated: true,
+			MixedAccess:        c.isMixedAccessSVLAN(outerVLAN),
 			State:              "bound",
 			IPv4:               ipv4,
 			IPv6Address:        ipv6,
@@ -505,6 +506,10 @@ func (c *Component) restoreFromHASync(srgName string) {
 
 		c.sessions.Store(lookupKey, sess)
 		c.sessionIndex.Store(cp.SessionId, sess)
+		// The promoted node's exclusivity registry knows nothing of the synced
+		// sessions yet: the session takes its mixed-access tuple like every
+		// other session that enters the tables (no-op off mixed access).
+		c.claimTuple(sess)
 
 		c.restoreSessionToCache(c.Ctx, sess, now)
 		c.checkpointSession(sess)
